@@ -112,7 +112,9 @@ def read_bytes(
 
     for bom, prefix, encoding in _xml_prefixes:
         if body.startswith(bom):
-            document = body.decode(encoding)
+            # Note that the endian-specific codecs don't strip the
+            # byte-order mark.
+            document = body[len(bom):].decode(encoding)
             return document, encoding, \
                 "text/xml" if document.startswith("<?xml") else None
 
